@@ -1,7 +1,7 @@
 (* C12 - delete_tags removes every live key carrying the tag.  The unchanged code violates the full property in two
    recorded ways (KNOWN_FINDINGS F20, F21); the faithful model therefore refutes the full statement (witnesses below,
    replayed on the implementation by corpus/C12), and what is proved is the part that does hold.  Statements only. *)
-From Cashews Require Import Base.Prelude Spec.TTLMap Model.Tags Run.C12 Proofs.TagsProofs Proofs.TagsCompleteProofs Proofs.TagsPreciseProofs Proofs.TagsTTLProofs.
+From Cashews Require Import Base.Prelude Spec.TTLMap Model.Tags Run.C12 Proofs.TagsProofs Proofs.TagsCompleteProofs Proofs.TagsPreciseProofs Proofs.TagsTTLProofs Proofs.TagsLazyProofs.
 Open Scope Z_scope.
 
 (* a write with tags makes the key a member of each named tag's set at once, for every TTL (none, short, long) *)
@@ -97,3 +97,21 @@ Proof.
   split; [repeat constructor; cbn [snd ev_okT]; apply NT; auto|].
   split; [cbn; lia|]. split; vm_compute; reflexivity.
 Qed.
+
+(* lazy expiry: the correspondence also runs histories in which some keys are only watched, not read, between the commands
+   (`tag_step_lazy`: such a key stays in the store past its deadline until a command meets it).  That variant IS the model of
+   the theorems above whenever every key is read between the commands: *)
+Theorem C12_lazy_variant_coincides_when_all_keys_are_read : forall reg keys m now e, Forall not_tagkey keys -> ev_in keys e ->
+  tag_step_lazy reg keys keys m now e = tag_step reg keys m now e.
+Proof. exact lazy_all_probed. Qed.
+Print Assumptions C12_lazy_variant_coincides_when_all_keys_are_read.
+(* and it differs when one is not: a:1 (tagged ta, short TTL) expires unread, is explicitly deleted - the expired entry is purged
+   with its callback, pruning the membership - and re-created without the tag: delete_tags(ta) leaves it; the same key merely
+   written over (no delete) keeps the stale membership and goes *)
+Example C12_lazy_example :
+  let run h := fold_left (fun m te => tag_step_lazy REG ["a:2"; "c"] KEYS m (fst te) (snd te)) h empty in
+  let h0 := [(1, TSet "a:1" (VInt 1) 4 ["ta"]); (1, TSet "a:2" (VInt 2) 1600 ["ta"])] in
+  (isSome (s_look (run (h0 ++ [(9, TDel "a:1"); (9, TSet "a:1" (VInt 5) 0 []); (9, TDeleteTags "ta")])) 9 "a:1"),
+   isSome (s_look (run (h0 ++ [(9, TSet "a:1" (VInt 5) 0 []); (9, TDeleteTags "ta")])) 9 "a:1"))
+  = (true, false).
+Proof. vm_compute. reflexivity. Qed.
